@@ -162,7 +162,131 @@ class VHCTAd(HCTAd):
     variance = True
 
 
-ADAPTERS = {a.name: a for a in [HOOAd(), HCTAd(), VHCTAd()]}
+def sw_str(with_b):
+    def f(nd):
+        s_ = f"{int(bool(nd.visited))}:{fbits(nd.reward)}"
+        if with_b:
+            s_ += f":{fbits(nd.b_value)}"
+        return s_
+    return f
+
+
+class SOOAd(Adapter):
+    name = "SOO"
+
+    def gen_params(self, rnd, T):
+        return {"n": rnd.choice([T, 100, 1000]), "h_max": rnd.choice([100, 100, 1000, T, 3, 5, 8])}
+
+    def construct(self, p, box, pcls):
+        from PyXAB.algos.SOO import SOO
+        return SOO(n=p["n"], h_max=p["h_max"], domain=box, partition=pcls)
+
+    def init_line(self, p, kind, K, box, calls):
+        return f"SOO.init {kind_str(kind, K)} {box_str(box)} {p['h_max']}", "ok"
+
+    def dump(self, a, delta):
+        part = a.partition
+        return (f"it={a.iteration} curr={vid(a.curr_node)} depth={part.get_depth()} "
+                f"layers={layers_str(part)} nodes={delta.dump(node_strs(part, sw_str(False)))}")
+
+
+class DOOAd(Adapter):
+    name = "DOO"
+
+    @staticmethod
+    def tab(p):
+        return [p["delta_c"] * p["delta_g"] ** h for h in range(300)]
+
+    def gen_params(self, rnd, T):
+        p = {"n": rnd.choice([T, 100])}
+        if rnd.random() < 0.4:
+            p["delta_c"], p["delta_g"] = rnd.choice([1.0, 0.5, 4.0]), rnd.choice([0.5, 0.25, 0.75])
+        return p
+
+    def construct(self, p, box, pcls):
+        from PyXAB.algos.DOO import DOO
+        if "delta_c" in p:
+            tab = self.tab(p)
+            return DOO(n=p["n"], delta=lambda h: tab[h], domain=box, partition=pcls)
+        return DOO(n=p["n"], domain=box, partition=pcls)
+
+    def init_line(self, p, kind, K, box, calls, algo=None):
+        r0 = algo.partition.get_root().reward if algo is not None else float("-inf")
+        tab = self.tab(p) if "delta_c" in p else None
+        ts = "0" if tab is None else f"1 {len(tab)} " + " ".join(fbits(x) for x in tab)
+        return f"DOO.init {kind_str(kind, K)} {box_str(box)} {fbits(r0)} {ts}", "ok"
+
+    def dump(self, a, delta):
+        part = a.partition
+        return (f"it={a.iteration} curr={vid(getattr(a, 'curr_node', None))} depth={part.get_depth()} "
+                f"layers={layers_str(part)} nodes={delta.dump(node_strs(part, sw_str(True)))}")
+
+
+def sto_str(nd):
+    last = fbits(nd.rewards[-1]) if nd.rewards else "-"
+    return f"{nd.visited_times}:{len(nd.rewards)}:{last}:{fbits(nd.mean_reward)}:{fbits(nd.b_value)}"
+
+
+class StoSOOAd(Adapter):
+    name = "StoSOO"
+    time_sensitive = True
+
+    def gen_params(self, rnd, T):
+        p = {"n": rnd.choice([T, T, 2 * T, 1000]), "h_max": rnd.choice([100, 100, 1000, 4, 6])}
+        if rnd.random() < 0.5:
+            p["k"] = rnd.choice([1, 2, 3, 5])
+        if rnd.random() < 0.3:
+            p["delta"] = rnd.choice([0.1, 0.01, 0.5])
+        return p
+
+    def fix_T(self, p, T):
+        return min(T, p["n"])
+
+    def construct(self, p, box, pcls):
+        from PyXAB.algos.StoSOO import StoSOO
+        return StoSOO(n=p["n"], k=p.get("k"), h_max=p["h_max"], delta=p.get("delta"), domain=box, partition=pcls)
+
+    def init_line(self, p, kind, K, box, calls, algo=None):
+        L = np.log(algo.n * algo.k / algo.delta)
+        return (f"StoSOO.init {kind_str(kind, K)} {box_str(box)} {algo.n} {fbits(algo.k)} {fbits(algo.delta)} {fbits(L)} "
+                f"{algo.h_max}"), "ok"
+
+    def dump(self, a, delta):
+        part = a.partition
+        sel = f"{a.max_b_node_h},{a.max_b_node_ind}" if hasattr(a, "max_b_node_h") else "-"
+        bm = fbits(a.b_max) if hasattr(a, "b_max") else fbits(float("-inf"))
+        return (f"it={a.iteration} bmax={bm} sel={sel} depth={part.get_depth()} "
+                f"layers={layers_str(part)} nodes={delta.dump(node_strs(part, sto_str))}")
+
+
+def sq_str(nd):
+    first = fbits(nd.rewards[0]) if nd.rewards else "-"
+    last = fbits(nd.rewards[-1]) if nd.rewards else "-"
+    return f"{len(nd.rewards)}:{first}:{last}:{int(bool(nd.opened))}"
+
+
+class SequOOLAd(Adapter):
+    name = "SequOOL"
+
+    def gen_params(self, rnd, T):
+        return {"n": rnd.choice([T, T, 2 * T, 1000, 10, 25])}
+
+    def construct(self, p, box, pcls):
+        from PyXAB.algos.SequOOL import SequOOL
+        return SequOOL(n=p["n"], domain=box, partition=pcls)
+
+    def init_line(self, p, kind, K, box, calls, algo=None):
+        return f"SequOOL.init {kind_str(kind, K)} {box_str(box)} {p['n']} {algo.h_max}", "ok"
+
+    def dump(self, a, delta):
+        part = a.partition
+        bud = getattr(a, "budget", None)
+        return (f"it={a.iteration} hmax={a.h_max} cd={a.curr_depth} loc={a.loc} budget={'-' if bud is None else bud} "
+                f"nchosen={len(a.chosen)} lastchosen={vid(a.chosen[-1]) if a.chosen else '-'} curr={vid(getattr(a, 'curr_node', None))} "
+                f"depth={part.get_depth()} layers={layers_str(part)} nodes={delta.dump(node_strs(part, sq_str))}")
+
+
+ADAPTERS = {a.name: a for a in [HOOAd(), HCTAd(), VHCTAd(), SOOAd(), DOOAd(), StoSOOAd(), SequOOLAd()]}
 
 
 # ------------------------------------------------------------------ generic case
@@ -180,7 +304,9 @@ def gen_algo_case(seed, idx, algo=None, force=None, monitors_on=True, T=None, ho
     rmode = force.get("rmode") or rnd.choice(REWARD_MODES)
     qmode = force.get("qmode") or rnd.choice(["mixed", "dyadic", "random", "end", "half"])
     params = force.get("params") or ad.gen_params(rnd, T)
-    t0 = force.get("t0", rnd.choice([1, 1, 0, 17]))
+    if hasattr(ad, "fix_T"):
+        T = ad.fix_T(params, T)
+    t0 = force.get("t0", rnd.choice([1, 1, 0, 17]) if not getattr(ad, "time_sensitive", False) else 1)
     n_queries = force.get("queries", rnd.choice([0, 0, 1, 3]))
     meta = {"gen": "algo", "algo": ad.name, "seed": seed, "idx": idx, "kind": kind, "K": K, "d": d, "box": box,
             "bmode": bmode, "T": T, "rmode": rmode, "qmode": qmode, "params": params, "t0": t0, "force": force}
@@ -199,8 +325,11 @@ def gen_algo_case(seed, idx, algo=None, force=None, monitors_on=True, T=None, ho
     with RngCtl(rnd, qmode=qmode) as rng:
         ctx["rng"] = rng
         pcls = make_partition_class(kind, K, rng)
+        ctx["pcls"] = pcls
+        if "pre_expand" in hooks:
+            pcls._pre_observer = staticmethod(lambda part_, parent_, nl_: hooks["pre_expand"](ctx, part_, parent_, nl_))
         try:
-            a = ad.construct(params, user_box, pcls)
+            a = guarded(ad.construct, params, user_box, pcls, budget=10.0)
         except Exception as e:
             case.op("# construct", None)
             case.stopped = f"construct: {type(e).__name__}: {e}"
@@ -224,7 +353,7 @@ def gen_algo_case(seed, idx, algo=None, force=None, monitors_on=True, T=None, ho
             t = t0 + i
             if i in query_rounds:
                 try:
-                    q = a.get_last_point()
+                    q = guarded(a.get_last_point)
                     nd = node_of_point(part, q)
                     case.op("A.last", f"pt {vid(nd)} {flist(q)}")
                     case.tags["op=query"] += 1
@@ -234,20 +363,23 @@ def gen_algo_case(seed, idx, algo=None, force=None, monitors_on=True, T=None, ho
                     case.stopped = "query"
                     break
             mark = len(part._calls)
+            if "before_pull" in hooks:
+                hooks["before_pull"](ctx, i)
             try:
-                pt = a.pull(t)
+                pt = guarded(a.pull, t)
             except Exception as e:
-                case.op("A.pull", "ERR " + exc_name(e))
+                case.op(f"A.pull {t} {draws_str(part._calls[mark:])}", "ERR " + exc_name(e))
                 case.fail("C01", "pull-exception", f"{type(e).__name__}: {e}", step=i, algo=ad.name, exc=type(e).__name__)
                 case.stopped = "pull"
                 break
             nd = node_of_point(part, pt) if pt is not None else None
+            pull_line = f"A.pull {t} {draws_str(part._calls[mark:])}"
             if pt is None:
-                case.op("A.pull", "ERR ReturnedNone")
+                case.op(pull_line, "ERR ReturnedNone")
                 case.fail("C01", "pull-returned-none", "pull returned None", step=i, algo=ad.name)
                 case.stopped = "pull-none"
                 break
-            case.op("A.pull", f"pt {vid(nd)} {flist(pt)}")
+            case.op(pull_line, f"pt {vid(nd)} {flist(pt)}")
             ctx["points"].append(list(pt)); ctx["pulled"].append(nd)
             if monitors_on:
                 monitors.c01_point(case, box, pt, i, ad.name)
@@ -257,7 +389,7 @@ def gen_algo_case(seed, idx, algo=None, force=None, monitors_on=True, T=None, ho
             ctx["rewards"].append(r)
             mark = len(part._calls)
             try:
-                a.receive_reward(t, r)
+                guarded(a.receive_reward, t, r)
             except Exception as e:
                 case.op(f"A.recv {fbits(r)} {draws_str(part._calls[mark:])}", "ERR " + exc_name(e))
                 case.fail("C01", "receive-exception", f"{type(e).__name__}: {e}", step=i, algo=ad.name, exc=type(e).__name__)
@@ -272,7 +404,7 @@ def gen_algo_case(seed, idx, algo=None, force=None, monitors_on=True, T=None, ho
                 hooks["after_recv"](ctx, i, pt, r)
         if case.stopped is None:
             try:
-                q = a.get_last_point()
+                q = guarded(a.get_last_point)
                 ndq = node_of_point(part, q)
                 case.op("A.last", f"pt {vid(ndq)} {flist(q)}")
                 ctx["last"] = q
@@ -300,7 +432,7 @@ if __name__ == "__main__":
     mism, nops = compare(cases)
     print("cases", len(cases), "ops", nops, "mismatches", len(mism))
     for (c, i, l, e, g) in mism[:6]:
-        print(c.name, c.meta["kind"], c.meta["K"], c.meta["d"], c.meta["rmode"], c.meta["params"], "op", i, l[:60]); print("  ", first_diff(e, g))
+        print(c.name, c.meta["kind"], c.meta["K"], c.meta["d"], c.meta["rmode"], str(c.meta["params"])[:150], "op", i, l[:60]); print("  ", first_diff(e, g))
     mf = [(c.name, f) for c in cases for f in c.monitor]
     print("monitor failures", len(mf))
     print(collections.Counter((f["property"], f["sig"]) for _n, f in mf))
